@@ -50,6 +50,7 @@ import (
 	"iter"
 	"regexp/syntax"
 	"strings"
+	"unicode/utf8"
 	"unsafe"
 
 	"github.com/coregx/coregex/meta"
@@ -1636,15 +1637,8 @@ func (r *Regex) MatchReader(reader io.RuneReader) bool {
 // A return value of nil indicates no match.
 func (r *Regex) FindReaderIndex(reader io.RuneReader) []int {
 	// Read all runes into a string and find
-	var runes []rune
-	for {
-		rn, _, err := reader.ReadRune()
-		if err != nil {
-			break
-		}
-		runes = append(runes, rn)
-	}
-	return r.FindStringIndex(string(runes))
+	runes, widths := readRunes(reader)
+	return streamOffsets(runes, widths, r.FindStringIndex(string(runes)))
 }
 
 // FindReaderSubmatchIndex returns a slice holding the index pairs
@@ -1655,15 +1649,45 @@ func (r *Regex) FindReaderIndex(reader io.RuneReader) []int {
 // A return value of nil indicates no match.
 func (r *Regex) FindReaderSubmatchIndex(reader io.RuneReader) []int {
 	// Read all runes into a string and find
-	var runes []rune
+	runes, widths := readRunes(reader)
+	return streamOffsets(runes, widths, r.FindStringSubmatchIndex(string(runes)))
+}
+
+// readRunes drains reader up to its first error and returns the runes it delivered
+// together with the width (bytes consumed from the stream) reported for each.
+func readRunes(reader io.RuneReader) (runes []rune, widths []int) {
 	for {
-		rn, _, err := reader.ReadRune()
+		rn, w, err := reader.ReadRune()
 		if err != nil {
 			break
 		}
 		runes = append(runes, rn)
+		widths = append(widths, w)
 	}
-	return r.FindStringSubmatchIndex(string(runes))
+	return runes, widths
+}
+
+// streamOffsets translates byte offsets into string(runes) (always at rune
+// boundaries, or -1) into byte offsets in the stream the runes were read from.
+// The two differ whenever a rune's width in the stream is not the length of its
+// UTF-8 encoding, e.g. an invalid byte delivered as (U+FFFD, 1).
+func streamOffsets(runes []rune, widths []int, loc []int) []int {
+	for k, off := range loc {
+		if off <= 0 {
+			continue
+		}
+		canon, stream := 0, 0
+		for i := 0; i < len(runes) && canon < off; i++ {
+			n := utf8.RuneLen(runes[i])
+			if n < 0 {
+				n = utf8.RuneLen(utf8.RuneError) // string(rune) encodes invalid runes as U+FFFD
+			}
+			canon += n
+			stream += widths[i]
+		}
+		loc[k] = stream
+	}
+	return loc
 }
 
 // MatchReader reports whether the text returned by the RuneReader
